@@ -11,7 +11,7 @@
    Statement-level theorems (parse_render_select ...) do not exist yet: SELECT / DML / DDL are covered by the
    prescribed-tree oracle only. *)
 From Coq Require Import List String Arith.
-From GV Require Import Spec.RefGrammar Model.Expr Model.ExprParse Proofs.ExprParseP Proofs.ExprParseExtP.
+From GV Require Import Spec.RefGrammar Spec.RefStmt Model.Expr Model.ExprParse Model.StmtParse Proofs.ExprParseP Proofs.ExprParseExtP Proofs.StmtParseP.
 Import ListNotations.
 
 (* The expression-level statement for the WHOLE reference expression grammar [mexpr] of Spec/RefGrammar.v (no
@@ -57,4 +57,43 @@ Example C03_nonvacuous :
   /\ parse_expr_top no_defects 0 (render 0 no_parens ex_mixed ++ [Tk TyEOF ""%string]) = Val (ast_of ex_mixed, [Tk TyEOF ""%string]).
 Proof.
   split; [reflexivity|]. split; [reflexivity|]. split; [apply follow_eof|]. split; [apply ex_mixed_depth|apply ex_mixed_parse].
+Qed.
+
+(* ------------------------------------------------------------------------------------------------ *)
+(* Statement level.  FULL statement: for every statement of the documented surface the tree returned by
+   parseStatement is the prescribed one.  PROVED: the reference statements of Spec/RefStmt.v (see the list of
+   clauses there and in design/C03.md); the clauses not in that reference grammar are covered by the prescribed-tree
+   oracle (and, where modelled, by the model-vs-code correspondence) only. *)
+
+(* one SELECT statement: DISTINCT, select list with aliases and `*`, FROM list with qualified names and aliases, joins of
+   every kind with ON / USING, WHERE, GROUP BY, HAVING, ORDER BY with direction and NULLS FIRST | LAST, LIMIT, OFFSET;
+   every parenthesisation choice [sr] of every expression; for the tree as it is ([tree_flags], switch
+   [d_no_alias_after_column] on) under the side condition that no alias without AS follows a bare column reference, for
+   the repaired configuration without it.
+   Omitted clauses: DISTINCT ON, SELECT ALL, t.*, derived tables, LATERAL, ROLLUP / CUBE / GROUPING SETS, FETCH, FOR,
+   sub-query expressions, window functions (FILTER / OVER / WITHIN GROUP). *)
+Theorem C03_parse_render_select_partial :
+  forall md sf fuel (sr : srho) s stop d,
+    select_ok s = true -> (d_no_alias_after_column sf = false \/ select_bare_alias_free s = true) ->
+    query_follow stop ->
+    d + 2 + select_depth sr s <= md ->
+    List.length (render_select sr s ++ stop) <= fuel ->
+    parse_statement md sf (parse_expression md no_defects fuel) d (render_select sr s ++ stop)
+    = Val (GSelectS (ast_of_select s), stop).
+Proof. exact parse_render_select. Qed.
+Print Assumptions C03_parse_render_select_partial.
+
+Theorem C03_select_refuted_bare_alias :
+  exists s stop, select_ok s = true /\ query_follow stop /\
+    parse_statement 100 tree_flags (parse_expression 100 no_defects 100) 0 (render_select (fun _ _ => no_parens) s ++ stop)
+    <> Val (GSelectS (ast_of_select s), stop).
+Proof. exact parse_render_select_refuted_bare_alias. Qed.
+Print Assumptions C03_select_refuted_bare_alias.
+
+Example C03_select_nonvacuous :
+  select_ok ex_select = true /\ select_bare_alias_free ex_select = true /\ query_follow [Tk TyEOF ""%string]
+  /\ parse_statement_top tree_flags (render_select (fun _ _ => no_parens) ex_select ++ [Tk TyEOF ""%string])
+     = Val (GSelectS (ast_of_select ex_select), [Tk TyEOF ""%string]).
+Proof.
+  split; [reflexivity|]. split; [reflexivity|]. split; [eexists _, _; split; reflexivity|apply ex_select_parse].
 Qed.
